@@ -1,8 +1,9 @@
 (* C05/Lemmas.v — specification-side definitions and the proofs behind coq/C05/Props.v. *)
 From Coq Require Import ZArith QArith Qcanon List String Ascii Bool Field Lia.
 From AV.lib Require Import QcInst.
-From AV.C06 Require Import Base Model Lemmas.
-From AV.gen Require Import C06_Gen C05_Gen.
+From AV.C06 Require Import Base.
+From AV.C05 Require Import Units.
+From AV.gen Require Import C05_Units_Gen C05_Gen.
 From AV.C05 Require Import Base Model.
 Import ListNotations.
 Open Scope string_scope.
@@ -929,24 +930,29 @@ Proof. destruct r; reflexivity. Qed.
 (* has the history switched an odd number of times? *)
 Definition odd_switches (ops : list op) : bool :=
   fold_right (fun o b => match o with OSwitch => negb b | _ => b end) false ops.
+(* histories that do not replace energies in place *)
+Definition no_update (o : op) : bool := match o with OUpd _ _ _ => false | _ => true end.
 (* the list of transition states after a history: only the ts setter and appends touch it *)
 Definition tss_step (l : list species) (o : op) : list species :=
   match o with
   | OSetTS None => []
   | OSetTS (Some t) => [t]
+  | OSetTSInvalid => []
   | OAppendTS t => l ++ [t]
   | _ => l
   end.
 Definition tss_after (ops : list op) (l : list species) : list species := fold_left tss_step ops l.
 
-Lemma run_ops_spec ops : forall r,
+Lemma run_ops_spec ops : forallb no_update ops = true -> forall r,
   run_ops ops r = set_tss (if odd_switches ops then switch r else r) (tss_after ops (tss r)).
 Proof.
-  unfold run_ops, tss_after. induction ops as [|o t IH]; intros r; [destruct r; reflexivity|].
-  cbn [fold_left odd_switches fold_right]. fold (odd_switches t). rewrite IH.
-  destruct o as [| |[x|]|x]; cbn [run_op tss_step].
+  unfold run_ops, tss_after. induction ops as [|o t IH]; intros H r; [destruct r; reflexivity|].
+  cbn [forallb] in H. apply andb_true_iff in H as [Ho Ht].
+  cbn [fold_left odd_switches fold_right]. fold (odd_switches t). rewrite (IH Ht).
+  destruct o as [| |[x|]| |x|w i es]; cbn [run_op tss_step]; try discriminate Ho.
   - destruct (odd_switches t); cbn [negb]; [rewrite switch_involutive|]; destruct r; reflexivity.
   - rewrite load_save. reflexivity.
+  - destruct (odd_switches t); destruct r; reflexivity.
   - destruct (odd_switches t); destruct r; reflexivity.
   - destruct (odd_switches t); destruct r; reflexivity.
   - destruct (odd_switches t); destruct r; reflexivity.
@@ -955,10 +961,11 @@ Lemma run_ops_parity ops : (forall o, In o ops -> o = OSwitch \/ o = OSaveLoad) 
   forall r, run_ops ops r = if odd_switches ops then switch r else r.
 Proof.
   intros H r. rewrite run_ops_spec.
-  assert (E : forall l, tss_after ops l = l).
-  { unfold tss_after. induction ops as [|o t IH]; intros l; [reflexivity|]. cbn [fold_left].
-    destruct (H o (or_introl eq_refl)) as [->| ->]; cbn [tss_step]; apply IH; intros o' Ho'; apply H; right; exact Ho'. }
-  rewrite E. destruct (odd_switches ops); destruct r; reflexivity.
+  - assert (E : forall l, tss_after ops l = l).
+    { unfold tss_after. induction ops as [|o t IH]; intros l; [reflexivity|]. cbn [fold_left].
+      destruct (H o (or_introl eq_refl)) as [->| ->]; cbn [tss_step]; apply IH; intros o' Ho'; apply H; right; exact Ho'. }
+    rewrite E. destruct (odd_switches ops); destruct r; reflexivity.
+  - apply forallb_forall. intros o Ho. destruct (H o Ho) as [->| ->]; reflexivity.
 Qed.
 Lemma delta_nonts_set_tss r l s k : parse s = (Some k, false) -> delta (set_tss r l) s = delta r s.
 Proof. intros H. rewrite !(delta_nonts _ _ _ H). reflexivity. Qed.
@@ -971,12 +978,14 @@ Proof.
 Qed.
 
 Lemma ckpt_first_run f r elapsed : Qcltb elapsed checkpoint_min_seconds = false ->
-  ckpt_step None elapsed f r = (f r, Some (save (f r))).
+  ckpt_step None elapsed false f r = (f r, Some (save (f r))).
 Proof. intros H. unfold ckpt_step. rewrite H. reflexivity. Qed.
 Lemma ckpt_short_run f r elapsed : Qcltb elapsed checkpoint_min_seconds = true ->
-  ckpt_step None elapsed f r = (f r, None).
+  ckpt_step None elapsed false f r = (f r, None).
 Proof. intros H. unfold ckpt_step. rewrite H. reflexivity. Qed.
-Lemma ckpt_rerun c elapsed g r2 : ckpt_step (Some c) elapsed g r2 = (load c r2, Some c).
+Lemma ckpt_raised f r elapsed : ckpt_step None elapsed true f r = (f r, None).
+Proof. reflexivity. Qed.
+Lemma ckpt_rerun c elapsed b g r2 : ckpt_step (Some c) elapsed b g r2 = (load c r2, Some c).
 Proof. reflexivity. Qed.
 Lemma checkpoint_threshold_is_one_second : checkpoint_min_seconds = 1.
 Proof. apply Qc_is_canon. vm_compute. reflexivity. Qed.
@@ -1199,4 +1208,77 @@ Lemma estimate_none_or_val r k a b :
 Proof.
   destruct (diff_none_or_val k a b) as [H|[x H]]; rewrite H; [left; reflexivity|right].
   destruct (estimate_spec r x target_u eq_refl) as [v [E _]]. rewrite E. eexists; reflexivity.
+Qed.
+
+(* ================================================================== 8. the lowest TS in Hartree; supplying energies *)
+(* finite facts about the GENERATED form of TransitionStates.lowest_energy: it compares in a common unit,
+   and that unit is the one delta converts to *)
+Lemma lowest_unit_some : lowest_unit <> None.
+Proof. unfold lowest_unit. discriminate. Qed.
+Lemma lowest_key_is_target q : lowest_key q = to_target q.
+Proof. reflexivity. Qed.
+
+(* independent of the generated key: t is a member of l, and every TS of l that has an energy has, in
+   Hartree, at least the energy of t *)
+Definition is_lowest_energy (l : list species) (t : species) : Prop :=
+  In t l /\
+  forall t' q', In t' l -> sp_energy t' = Some q' ->
+    exists q, sp_energy t = Some q /\ to_target q <= to_target q'.
+Lemma lowest_ts_lowest_energy l t : lowest_ts l = LOk (Some t) -> is_lowest_energy l t.
+Proof.
+  intros H. destruct (lowest_ts_spec _ _ H) as [Hin Hmin]. split; [exact Hin|].
+  intros t' q' Ht' Hq'. destruct (Hmin t' q' Ht' Hq') as [q [Hq Hle]]. exists q. split; [exact Hq|].
+  rewrite <- !lowest_key_is_target. exact Hle.
+Qed.
+
+(* ---- Energies.append / the Species.energy setter *)
+Lemma last_of_app_same c l e : ecl e = c -> last_of c (l ++ [e]) = Some e.
+Proof. intros H. unfold last_of. rewrite rev_app_distr. cbn [rev app find]. rewrite H, ecls_eqb_refl. reflexivity. Qed.
+Lemma energies_append_shape other l : exists l', energies_append other l = l' ++ [other].
+Proof.
+  unfold energies_append. destruct (find (energy_eqb other) l) as [item|]; [|exists l; reflexivity].
+  destruct (find_index _ l) as [i|]; eexists; reflexivity.
+Qed.
+Lemma energies_append_fresh other l : (forall item, In item l -> energy_eqb other item = false) ->
+  energies_append other l = l ++ [other].
+Proof.
+  intros H. unfold energies_append. destruct (find (energy_eqb other) l) as [item|] eqn:F; [|reflexivity].
+  apply find_some in F as [F1 F2]. rewrite (H item F1) in F2. discriminate.
+Qed.
+(* whatever was there, the potential energy of the species after the assignment is the entry appended *)
+Lemma set_energy_m_energy m v s :
+  sp_energy (set_energy_m m v s) =
+  match supplied_entry_m m v with Some e => Some (ex e, eu e) | None => sp_energy s end.
+Proof.
+  unfold set_energy_m. destruct (supplied_entry_m m v) as [e|] eqn:E; [|reflexivity].
+  assert (Hc : ecl e = EPot).
+  { destruct v as [|x|c x u]; cbn in E; [discriminate|injection E as <-; reflexivity|].
+    destruct c; try (injection E as <-; reflexivity); destruct m as [|[|m]]; injection E as <-; reflexivity. }
+  unfold sp_energy. cbn [s_energies]. destruct (energies_append_shape e (s_energies s)) as [l' ->].
+  rewrite (last_of_app_same _ _ _ Hc). reflexivity.
+Qed.
+(* the physical quantity assigned, in the default unit (Hartree): a bare number is Hartree by documentation *)
+Definition supplied_default (v : supplied) : option Qc :=
+  match v with SNone => None | SNumber x => Some x | SEnergy _ x u => Some (conv x u default_u) end.
+Definition supplied_units_ok (v : supplied) : Prop :=
+  match v with SEnergy _ _ u => In u energy_units | _ => True end.
+Lemma default_in : In default_u energy_units.
+Proof. rewrite default_is_target. exact target_in. Qed.
+Lemma supplied_entry_keeps m v e : m <> 0%nat -> supplied_units_ok v ->
+  supplied_entry_m m v = Some e -> supplied_default v = Some (entry_default e).
+Proof.
+  intros Hm Hu E. destruct v as [|x|c x u]; cbn in E |- *; [discriminate| |].
+  - injection E as <-. unfold entry_default. cbn [ex eu]. rewrite (conv_same_energy _ _ default_in). reflexivity.
+  - assert (K : e = mkE EPot x u \/ e = mkE EPot (conv x u default_u) default_u).
+    { destruct c; try (left; injection E as <-; reflexivity);
+        destruct m as [|[|m]]; try congruence; injection E as <-; auto. }
+    destruct K as [-> | ->]; unfold entry_default; cbn [ex eu]; [reflexivity|].
+    rewrite (conv_same_energy _ _ default_in). reflexivity.
+Qed.
+Lemma supplied_entry_drops :
+  exists c x u, In u energy_units /\ forall e, supplied_entry_m 0 (SEnergy c x u) = Some e ->
+    supplied_default (SEnergy c x u) <> Some (entry_default e).
+Proof.
+  exists EBase, (qc 1 1), w_kcal. split; [exact (proj2 w_units)|].
+  intros e E. cbn in E. injection E as <-. vm_compute. intros H. discriminate H.
 Qed.
